@@ -225,6 +225,7 @@ class VNet(object):
         self.frame_handlers = []
         self.close_handlers = []
         self.closed_flag = False  # set by harnesses after client.close(): later attempts are recorded
+        self.sync_refuse = 0  # number of coming connect() calls that fail synchronously
 
     # -- the endpoint factory handed to afkak
     def endpoint_factory(self, reactor, host, port):
@@ -244,6 +245,14 @@ class VNet(object):
         a = Attempt(aid, host, port, factory, d)
         self.attempts.append(a)
         self.journal.append(("attempt", aid, host, port, self.clock.seconds()))
+        if self.sync_refuse:
+            # the endpoint fails at once (e.g. name resolution answered from a negative cache): connect() returns
+            # a Deferred that has already failed
+            self.sync_refuse -= 1
+            a.state = "refused"
+            a.sync = True
+            self.journal.append(("refuse", aid))
+            d.errback(error.ConnectionRefusedError("refused synchronously by virtual network"))
         return d
 
     def pending_attempts(self):
